@@ -29,9 +29,6 @@ theorem refutes {ops : List Op} (h : Differs ops) : ¬ C18_full := fun hf => h (
 theorem C18_counterexample_head_without_etag :
     Differs [.createBucket bka, .putObject bka kA [1] none {} none, .headObject bka kA] := by decide
 
-/-- fs:missing-bucket-reported-as-missing-key -/
-theorem C18_counterexample_missing_bucket_code : Differs [.getObject bka kA none] := by decide
-
 /-- fs:stale-metadata-after-copy -/
 theorem C18_counterexample_stale_metadata_after_copy :
     Differs [.createBucket bka, .putObject bka kA [1] mdV {} none, .putObject bka kB [2] none {} none,
@@ -98,7 +95,8 @@ theorem C18_counterexample_complete_missing_part :
 
 (1d0f501 put_object / create_multipart_upload require the bucket; b01fec8 put_object without metadata removes the old
 metadata file; ca1e912 copy onto itself keeps the object; d6f1a3c head_object tells a missing key from a missing bucket;
-dbc4627 delete_bucket refuses a bucket that holds objects; fe75a0e delete_object of a key that does not exist succeeds;
+dbc4627 delete_bucket refuses a bucket that holds objects; fe75a0e delete_object of a key that does not exist succeeds; 391a940 (and fe75a0e for delete_object) an object in a bucket
+that does not exist is `NoSuchBucket`, not `NoSuchKey`;
 b89afe2 ranged reads: covered for all ranges by `C18_get_refines_partial` and `C18_range_check`, the kernel cannot
 evaluate the decimal formatter of `Content-Range`) -/
 
@@ -163,6 +161,19 @@ theorem C18_fixed_delete_missing_key :
     (run H0 0 {} [.createBucket bka, .deleteObject bka kA, .putObject bka kA [1] none {} none, .deleteObject bka kB,
       .getObject bka kA none, .deleteObject bka kA, .deleteObject bka kA, .deleteObject [98, 107, 98] kA]).2.map tagOf =
       [none, none, none, none, none, none, none, some .NoSuchBucket] := by decide
+
+/-- was fs:missing-bucket-reported-as-missing-key (the witness history of `corpus/fs.txt` first): get_object, delete_object,
+    the source of copy_object and the source of upload_part_copy in a bucket that does not exist are `NoSuchBucket` on both
+    sides; a missing key in an existing bucket stays `NoSuchKey` -/
+theorem C18_fixed_missing_bucket_code :
+    Same [.getObject bka kA none, .deleteObject bka kA, .createBucket bka, .copyObject [98, 107, 98] kA bka kB,
+      .createMultipartUpload alice bka kA none, .uploadPartCopy alice bka kA (some 1) 1 [98, 107, 98] kB none,
+      .getObject bka kA none, .copyObject bka kA bka kB, .uploadPartCopy alice bka kA (some 1) 1 bka kB none] ∧
+    (run H0 0 {} [.getObject bka kA none, .deleteObject bka kA, .createBucket bka, .copyObject [98, 107, 98] kA bka kB,
+      .createMultipartUpload alice bka kA none, .uploadPartCopy alice bka kA (some 1) 1 [98, 107, 98] kB none,
+      .getObject bka kA none, .copyObject bka kA bka kB, .uploadPartCopy alice bka kA (some 1) 1 bka kB none]).2.map tagOf =
+      [some .NoSuchBucket, some .NoSuchBucket, none, some .NoSuchBucket, none, some .NoSuchBucket,
+       some .NoSuchKey, some .NoSuchKey, some .NoSuchKey] := by decide
 
 /-- was fs:suffix-range-longer-than-object / fs:suffix-range-huge-panics: the model no longer fails or panics (the answer
     itself is compared by `C18_get_refines_partial`) -/
